@@ -335,23 +335,34 @@ def _through_unique(F, B, pl, seen, depth=0):
     return False
 
 
+def _gate_def(F, G, rep, tag):
+    # ---- R-GATE-DEF / R-ORD-5
+    for k, (ordr, why) in G.gates.items():
+        b = F.body(k)
+        if ordr == "BAD":
+            rep.bad("R-GATE-DEF", k, "the uniqueness test %s: it would grant exclusive access while other owners exist, or refuse a sole owner" % why, F.loc(b), tag)
+        elif ordr in atomics.ACQUIRE_OK:
+            rep.ok("R-GATE-DEF", k, "count == 1 via an %s load" % ordr, cfg=tag)
+            rep.ok("R-ORD-5", k, cfg=tag)
+        else:
+            rep.ok("R-GATE-DEF", k, cfg=tag)
+            rep.bad("R-ORD-5", k, "the load feeding the uniqueness test is %s; it must be Acquire (or SeqCst) to order the mutable access after the accesses of owners that have since released (pairs with the Release decrement)" % ordr, F.loc(b), tag)
+    if not G.gates:
+        rep.bad("ANCHOR-LOST", "R-GATE-DEF", "no function of the shape `load(count) == 1` found", None, tag)
+
+
+def rule_gate_def(ctx, rep):
+    """The uniqueness gate is `Acquire load(count) == 1` (shared by C03, C08, C09: their schedule clauses rest on it)."""
+    for tag, F, E in ctx.each():
+        _gate_def(F, Gates(F), rep, tag)
+    rep.floor("R-GATE-DEF", 1, "one gate definition")
+
+
 def run(ctx, rep):
     for tag, F, E in ctx.each():
         A = balance.analysis(tag, F, E)
         G = Gates(F)
-        # ---- R-GATE-DEF / R-ORD-5
-        for k, (ordr, why) in G.gates.items():
-            b = F.body(k)
-            if ordr == "BAD":
-                rep.bad("R-GATE-DEF", k, "the uniqueness test %s: it would grant exclusive access while other owners exist, or refuse a sole owner" % why, F.loc(b), tag)
-            elif ordr in atomics.ACQUIRE_OK:
-                rep.ok("R-GATE-DEF", k, "count == 1 via an %s load" % ordr, cfg=tag)
-                rep.ok("R-ORD-5", k, cfg=tag)
-            else:
-                rep.ok("R-GATE-DEF", k, cfg=tag)
-                rep.bad("R-ORD-5", k, "the load feeding the uniqueness test is %s; it must be Acquire (or SeqCst) to order the mutable access after the accesses of owners that have since released (pairs with the Release decrement)" % ordr, F.loc(b), tag)
-        if not G.gates:
-            rep.bad("ANCHOR-LOST", "R-GATE-DEF", "no function of the shape `load(count) == 1` found", None, tag)
+        _gate_def(F, G, rep, tag)
         # ---- producers
         unsafe_producers = {}  # key of unsafe fn -> set of arg indices whose uniqueness the caller must guarantee
         nprod = 0
